@@ -174,23 +174,15 @@ class StochasticAtomGraph:
                                 termination_weight=0,
                                 transition_weight=0,
                             )
-                            self.graph.add_edge(
-                                first_atom,
-                                second_atom,
-                                bond_type=int(graph_bd.bond_type),
-                                stochastic_weight=0,
-                                static_weight=0,
-                                termination_weight=graph_bd.weight,
-                                transition_weight=0,
-                            )
-            else:
-                for other_bd in element.bond_descriptors:
-                    if graph_bd.is_compatible(other_bd) and other_bd.weight > 0:
-                        other_bd_token_idx = _find_bd_token(element, other_bd)
-                        first_atom = graph_bd.atom_bonding_to + nested_offset[graph_bd_token_idx]
-                        second_atom = other_bd.atom_bonding_to + nested_offset[other_bd_token_idx]
+            for other_bd in element.bond_descriptors:
+                if graph_bd.is_compatible(other_bd) and other_bd.weight > 0:
+                    other_bd_token_idx = _find_bd_token(element, other_bd)
+                    first_atom = graph_bd.atom_bonding_to + nested_offset[graph_bd_token_idx]
+                    second_atom = other_bd.atom_bonding_to + nested_offset[other_bd_token_idx]
 
-                        if other_bd_token_idx < len(element.repeat_tokens):
+                    if other_bd_token_idx < len(element.repeat_tokens):
+                        # Listed transitions replace the weights of the repeat units
+                        if graph_bd.transitions is None:
                             self.graph.add_edge(
                                 first_atom,
                                 second_atom,
@@ -200,16 +192,16 @@ class StochasticAtomGraph:
                                 termination_weight=0,
                                 transition_weight=0,
                             )
-                        else:
-                            self.graph.add_edge(
-                                first_atom,
-                                second_atom,
-                                bond_type=int(graph_bd.bond_type),
-                                termination_weight=other_bd.weight,
-                                transition_weight=0,
-                                stochastic_weight=0,
-                                static_weight=0,
-                            )
+                    else:
+                        self.graph.add_edge(
+                            first_atom,
+                            second_atom,
+                            bond_type=int(graph_bd.bond_type),
+                            termination_weight=other_bd.weight,
+                            transition_weight=0,
+                            stochastic_weight=0,
+                            static_weight=0,
+                        )
 
     def _add_nodes_to_graph(self, nodes):
         for node in nodes:
